@@ -231,12 +231,35 @@ def runMeta (f : List String) : String :=
       | none => "render-fail"
   | _ => "bad-case"
 
+/-! ### compat: refusal of non-ASCII-compatible encodings at configuration time
+(`AsciiCompatibleEncoding::new`, rewriter/mod.rs:29-33: UTF-16LE, UTF-16BE, ISO-2022-JP and `replacement`
+are refused; `for_label_no_replacement` does not even resolve `replacement`) -/
+
+def compatTable : List (String × String × Bool) :=
+  [("utf-8", "UTF-8", true), ("windows-1252", "windows-1252", true), ("iso-8859-7", "ISO-8859-7", true),
+   ("gbk", "GBK", true), ("shift_jis", "Shift_JIS", true), ("big5", "Big5", true), ("euc-jp", "EUC-JP", true),
+   ("euc-kr", "EUC-KR", true), ("gb18030", "gb18030", true), ("koi8-r", "KOI8-R", true),
+   ("x-user-defined", "x-user-defined", true), ("macintosh", "macintosh", true),
+   ("utf-16le", "UTF-16LE", false), ("utf-16be", "UTF-16BE", false), ("utf-16", "UTF-16LE", false),
+   ("iso-2022-jp", "ISO-2022-JP", false), ("csiso2022jp", "ISO-2022-JP", false),
+   ("unicode", "UTF-16LE", false), ("ucs-2", "UTF-16LE", false)]
+
+def runCompat (f : List String) : String :=
+  match f with
+  | [label] =>
+    match compatTable.find? (·.1 == label) with
+    | some (_, name, ok) => s!"{name} {if ok then "accepted" else "refused"}"
+    | none => "unknown"
+  | _ => "bad-case"
+
 def run (line : String) : String :=
   match line.splitOn " " with
   | "dec" :: f => runDec f
   | "tenc" :: f => runTenc f
   | "resync" :: f => runResync f
   | "meta" :: f => runMeta f
+  | "loc" :: _ => "impl-only"
+  | "compat" :: f => runCompat f
   | _ => "bad-case"
 
 end LolHtml.Lane.Enc
